@@ -23,7 +23,10 @@ EXPLANATION = (
     "name left over from an earlier, finished loop is reported; (R4) the "
     "trace combiner is a two-finger merge in which each branch advances the "
     "side it consumed and ties go to the read trace; filterTrace advances "
-    "both on a match and the smaller side otherwise.")
+    "both on a match and the smaller side otherwise; (R5) the buffet keeps "
+    "a line exactly when the iteration-stamp PREFIX up to and including the "
+    "evict-on rank (slice from 0, length index+1, 0 for root) equals the "
+    "same prefix of the next use and a next use exists.")
 RULE = ("one obligation per temp-file table, per callback slot x policy, per "
         "binding loop x name, per merge branch")
 
@@ -35,6 +38,7 @@ def run(ctx):
     ctx.guard(r2_slots)
     ctx.guard(r3_stale)
     ctx.guard(r4_merges)
+    ctx.guard(r5_window)
 
 
 def _walk(stmts):
@@ -330,3 +334,121 @@ def r4_merges(ctx):
         ctx.bad("C17.R4", f, lp, "filterTrace is no longer the two-pointer scan "
                 "(match: keep + advance both; input smaller: advance input; "
                 "else advance filter)")
+
+
+# -- R5: the buffet's eviction window is the stamp prefix ----------------------
+
+def r5_window(ctx):
+    from .c18 import poly
+    cands = [f for k, f in ctx.prog.funcs.items()
+             if k.startswith(T + "buffetTraffic.") and f.name == "to_be_buffered"]
+    ctx.require(len(cands) == 1, "C17.R5: buffet to_be_buffered not found")
+    f = cands[0]
+    rets = pat.returns(f)
+    ctx.require(rets, "C17.R5: to_be_buffered has no return")
+    params = f.all_param_names()
+    ctx.require("trace" in params, "C17.R5: to_be_buffered lost its trace parameter")
+
+    def sub(e, dflt=None):
+        if e is None:
+            return dflt
+        p_ = poly(ctx, f, e)
+        return None if p_ is None else {k_: v_ for k_, v_ in p_.items() if v_}
+
+    for r in rets:
+        v = r.value.elts[0] if isinstance(r.value, ast.Tuple) and r.value.elts else r.value
+        if isinstance(v, ast.Name):
+            v = pat.single_def(ctx, f, v) or v
+        conj = [(t, pol) for t, pol in pat.conjuncts(v)]
+        window = None
+        exists = None
+        for t, pol in conj:
+            if not pol or not isinstance(t, ast.Compare) or len(t.ops) != 1:
+                continue
+            l, rr = t.left, t.comparators[0]
+            if isinstance(t.ops[0], ast.Eq):
+                l = pat.single_def(ctx, f, l) or l if isinstance(l, ast.Name) else l
+                rr = pat.single_def(ctx, f, rr) or rr if isinstance(rr, ast.Name) else rr
+                window = (l, rr, t)
+            if isinstance(t.ops[0], ast.IsNot) and text(rr) == "None":
+                exists = l
+        gs = [(text(t).replace(" ", "").replace("'", '"'), pol) for t, pol in guards(r)]
+        if window is None:
+            # a return for the root case alone may legitimately have no window
+            if ('evict_on=="root"', True) in gs and exists is not None:
+                ctx.ok("C17.R5", f, r, "root binding: kept while a next use exists",
+                       text_="buffet window root")
+                continue
+            ctx.bad("C17.R5", f, r, "the buffet no longer compares the "
+                    "iteration stamp of this access with that of the next use",
+                    text_="buffet window")
+            continue
+        l, rr, t = window
+        ok = True
+        why = []
+        sl = []
+        for side in (l, rr):
+            if not (isinstance(side, ast.Subscript) and text(side.value) == "trace"
+                    and isinstance(side.slice, ast.Slice) and side.slice.step is None):
+                ok = False
+                why.append("`%s` is not a slice of the trace row (the window "
+                           "is the whole stamp prefix up to the evict-on rank, "
+                           "not a single position)" % text(side))
+            else:
+                sl.append(side.slice)
+        if ok:
+            # the one starting at 0 is the current stamp
+            lo = [sub(x.lower, {}) for x in sl]
+            cur = [i for i, p_ in enumerate(lo) if p_ == {}]
+            if len(cur) != 1:
+                ok = False
+                why.append("exactly one of the two slices must start at 0")
+            else:
+                c, n = sl[cur[0]], sl[1 - cur[0]]
+                width = sub(c.upper)
+                nlo, nhi = sub(n.lower), sub(n.upper)
+                if width is None or nlo is None or nhi is None:
+                    raise AnalysisError("C17.R5: cannot normalise the window bounds")
+                diff = dict(nhi)
+                for k_, v_ in nlo.items():
+                    diff[k_] = diff.get(k_, 0) - v_
+                diff = {k_: v_ for k_, v_ in diff.items() if v_}
+                if diff != width:
+                    ok = False
+                    why.append("the two prefixes have different lengths (%s vs %s)"
+                               % (width, diff))
+                base = sub(exists) if exists is not None else None
+                ex_ok = exists is not None and isinstance(exists, ast.Subscript) and \
+                    text(exists.value) == "trace" and poly(ctx, f, exists.slice) == nlo
+                if not ex_ok:
+                    ok = False
+                    why.append("no `trace[<start of next stamp>] is not None` test")
+                # the width: 0 for root, index of the evict-on rank + 1 otherwise
+                wname = c.upper
+                vals = set()
+                if isinstance(wname, ast.Name):
+                    facts, _ = ctx.ty.facts_at(f, wname.id, wname)
+                    for fa in facts:
+                        g_ = [(text(t_).replace(" ", "").replace("'", '"'), pol_)
+                              for t_, pol_ in guards(fa.stmt)]
+                        root = ('evict_on=="root"', True) in g_
+                        pv = poly(ctx, f, fa.value)
+                        vals.add(("root" if root else "rank",
+                                  tuple(sorted((k_, v_) for k_, v_ in pv.items() if v_))
+                                  if pv is not None else None))
+                want = {("root", ()),
+                        ("rank", ((( ), 1), (("order.index(loop_ranks[evict_on])",), 1)))}
+                if vals != want:
+                    ok = False
+                    why.append("prefix length is %s, expected 0 for root and "
+                               "order.index(loop_ranks[evict_on]) + 1 otherwise"
+                               % sorted(vals, key=str))
+        if ok:
+            ctx.ok("C17.R5", f, t, "window = stamp prefix up to and including "
+                   "the evict-on rank, against the same prefix of the next use",
+                   text_="buffet window")
+        else:
+            ctx.bad("C17.R5", f, t, "buffet eviction window: %s -- accesses in "
+                    "different windows are merged (or one window split), so "
+                    "fills / write-backs are not one per (line, window) pair"
+                    % "; ".join(why), text_="buffet window")
